@@ -1,6 +1,7 @@
 package option
 
 import (
+	"go/token"
 	"strings"
 
 	"github.com/reedom/convergen/pkg/generator/model"
@@ -15,6 +16,7 @@ type Options struct {
 	Stringer            bool              // Whether to use stringer methods to convert values to strings
 	Typecast            bool              // Whether to use explicit typecasts when converting values
 	Receiver            string            // Receiver name for method generation
+	ReceiverPos         token.Pos         // Position of the notation that names the receiver
 	Reverse             bool              // Whether to reverse the order of struct tags
 	SkipFields          []*PatternMatcher // List of field names to skip during conversion
 	NameMapper          []*NameMatcher    // List of field name mapping rules
